@@ -1,6 +1,7 @@
 /- Step lemmas: one ORSWOT operation refines the LWW join. -/
 import Datacake.Spec.Lww
 import Datacake.Lemmas.Timestamp
+set_option linter.unusedSimpArgs false
 
 namespace Datacake.OrSwot
 open Datacake.Lww Datacake.Map
